@@ -60,8 +60,10 @@ def check_C01(tier, seed):
     exe = build_driver("asan")
     for c in cfgs(tier, ["C01_quick.cfg", "C01_nocase_titles.cfg", "C01_lists.cfg"], ["C01_len7.cfg", "C01_two_parses.cfg"]):
         res = tlc_parse(v, c, INV_PARSE)
+        # canonical and seeded varied rendering through cfg_parse_buf; the same bytes through cfg_parse_fp
+        # (a stream) and cfg_parse (a file) must give the same result
         parsecheck.replay(v, exe, res, aspects={"tree", "diag"}, seed=seed,
-                          renderings=("canonical", "varied") if tier == "quick" else ("canonical",), tag="C01")
+                          renderings=("canonical", "varied", "fp", "file") if c == "C01_quick.cfg" else ("canonical", "varied"), tag="C01")
     # leg B: recorded executions on random schemas with long random texts, validated against the specification
     from . import tracegen
     tracegen.run(v, exe, 120 if tier == "quick" else 2500, seed, tag="C01trace", texts_per=4, calls_per=3)
@@ -80,7 +82,7 @@ def check_C06(tier, seed):
     for c in cfgs(tier, ["lines_quick.cfg"], ["lines_thorough.cfg"]):
         res = tlc_parse(v, c, INV_LINES)
         parsecheck.replay(v, exe, res, aspects={"diag", "diagpos"}, seed=seed,
-                          renderings=("canonical", "varied"), tag="C06")
+                          renderings=("varied", "fp", "file") if tier == "quick" else ("canonical", "varied", "fp", "file"), tag="C06")
     # scanner level: the line counter through every start condition (comments with stars, multi-line strings, continuations)
     run_lex(v, exe, cfgs(tier, ["lex_comment_quick.cfg", "lex_lines_quick.cfg"], ["lex_comment_thorough.cfg"]), seed, "C06")
     res = run_tlc("MC_Inc.tla", os.path.join("mc", "inc_quick.cfg")) if os.path.exists(os.path.join(SPEC, "MC_Inc.tla")) else None
@@ -184,6 +186,10 @@ def check_C09(tier, seed):
     for c in cfgs(tier, ["api_quick.cfg", "api_nopre_quick.cfg"], ["api_thorough.cfg"]):
         res = tlc_api(v, c)
         apicheck.replay(v, exe, res, aspects={"tree", "freed", "balance"}, seed=seed, tag="C09")
+        if c == "api_nopre_quick.cfg":
+            # the cfg_opt_* entry points must behave like their by-name forms (no pre-set validation callback there)
+            res.behaviours = [b for b in res.behaviours if b["calls"][-1]["call"]["name"] not in ("vi", "vs", "vf")]
+            apicheck.replay(v, exe, res, aspects={"tree"}, seed=seed, tag="C09opt", optvariant=True, sigprefix="api-opt")
     from . import tracegen
     tracegen.run(v, exe, 120 if tier == "quick" else 2500, seed + 17, tag="C09trace", texts_per=1, calls_per=25)
     v.cov["exhaustive"] = True
